@@ -102,6 +102,8 @@ def run(ctx):
         cf = (10 ** rng.uniform(8, 10)) * u.Hz
         if rng.random() < 0.4:
             cf = rng.choice([327.0, 800.0, 1400.0, 4850.0]) * u.MHz
+        # the same quantities in assorted units (code that reads .value instead of converting is unit-dependent)
+        rate, cf = rate.to(rng.choice([u.Hz, u.kHz, u.MHz, u.GHz])), cf.to(rng.choice([u.Hz, u.kHz, u.MHz, u.GHz]))
         if X.hz(cf) < 2 * nchan * X.hz(rate):
             continue
         al = rng.choice(['bottom', 'center', 'top'])
@@ -121,6 +123,9 @@ def run(ctx):
         refsel = rng.choice(['default', 'center', 'top', 'bottom', 'above', 'below', 'inside'])
         ref = {'default': None, 'center': z.center_freq, 'top': z.max_freq, 'bottom': z.min_freq,
                'above': z.max_freq * 1.03, 'below': z.min_freq * 0.97, 'inside': z.min_freq + 0.3 * z.bandwidth}[refsel]
+        converted = False
+        if ref is not None and rng.random() < 0.6:
+            ref, converted = ref.to(rng.choice([u.Hz, u.kHz, u.MHz, u.GHz])), True
         rq = X.hz(rate)
         frq = X.hz(z.center_freq if ref is None else ref)
         fmin, fmax = X.hz(z.min_freq), X.hz(z.max_freq)
@@ -132,7 +137,8 @@ def run(ctx):
         dm = pb.DM(dmv)
         dq = Fraction(dmv)
         dtop, dbot = exact_delay(dq, fmax, frq) * rq, exact_delay(dq, fmin, frq) * rq
-        if any(abs(d - round(d)) < Fraction(1, 10 ** 9) * (1 + abs(d)) and d != 0 for d in (dtop, dbot)):
+        # (an exactly zero delay stays exactly zero in the code only when the reference IS the band-edge object, not a re-expressed copy)
+        if any(abs(d - round(d)) < Fraction(1, 10 ** 9) * (1 + abs(d)) and (d != 0 or converted) for d in (dtop, dbot)):
             ctx.count('regenerated_integer_delay')
             continue
         done += 1
